@@ -104,12 +104,35 @@ def rule_limit_forwarding(ctx: Ctx, rule: str) -> None:
                                   any(k.arg == 'limit' and norm_src(k.value) == 'self.limit' for k in c.keywords) for c in calls)
         ctx.ob(rule, f'{mod}:{attr_user}/passes-self.limit', okc, repo.loc(mod, user.node), f'{callee_text}(…, self.limit)',
                '; '.join(norm_src(c) for c in calls), witness="WcMatch('.', '{1..10}', flags=BRACE, limit=5) must raise")
+    # Glob: the budget is initialised once, before the first parsing pass, and only the expansion loop spends it
+    from ..slicer import slice_function
+    from ..symeval import BV, Obj, Opaque, SymEval, focus, _tag
     gi = repo.func('glob', 'Glob.__init__')
-    src = [norm_src(s) for s in walk_no_nested(gi.node) if isinstance(s, (ast.Assign, ast.AnnAssign))]
-    okg = any(s.startswith('self.limit') and s.endswith('= limit') for s in src) and \
-        any(s.startswith('self.current_limit') and s.endswith('= self.limit') for s in src)
-    ctx.ob(rule, 'glob:Glob.__init__/stores-limit', okg, repo.loc('glob', gi.node),
-           'self.limit = limit; self.current_limit = self.limit', str(okg))
+    sl = slice_function(gi, {'self.current_limit', 'self.limit', 'self.total'}, self_calls_define={'self.current_limit', 'self.total'}, keep_exits=False, name='budget')
+    ev = SymEval(repo, inline=False, max_paths=5000)
+    args = {p: (BV('flags') if p == 'flags' else Opaque(p)) for p in gi.params() if p != 'self'}
+    paths = ev.tabulate(sl, args, Obj(('glob', 'Glob')))
+    bad = []
+    for p in paths:
+        focus(p)
+        stores = [(i, e) for i, e in enumerate(p.events) if e[0] == 'store' and e[1] in ('self.current_limit', 'self.limit', 'self.total')]
+        passes = [i for i, e in enumerate(p.events) if e[0] == 'call' and e[1] == 'glob:Glob._parse_patterns']
+        cur = [(i, e) for i, e in stores if e[1] == 'self.current_limit']
+        lim = [(i, e) for i, e in stores if e[1] == 'self.limit']
+        tot = [(i, e) for i, e in stores if e[1] == 'self.total']
+        if len(lim) != 1 or lim[0][1][2] != Opaque('limit'):
+            bad.append(f'self.limit stored {[ _tag(e[2]) for _i, e in lim]}')
+        if len(cur) != 1 or cur[0][1][2] != Opaque('limit'):
+            bad.append(f'self.current_limit stored {[_tag(e[2])[:50] for _i, e in cur]}')
+        if len(tot) != 1 or tot[0][1][2] != 0:
+            bad.append(f'self.total stored {[_tag(e[2]) for _i, e in tot]}')
+        if passes and any(i > passes[0] for i, _e in stores):
+            bad.append('the budget is rewritten between / after the parsing passes')
+        if not passes:
+            bad.append('no parsing pass')
+    ctx.ob(rule, 'glob:Glob.__init__/stores-limit', not bad and len(paths) >= 2, repo.loc('glob', gi.node),
+           'self.limit = limit; self.current_limit = limit; self.total = 0 -- once, before the first _parse_patterns; exclusions share the same budget',
+           f'{len(paths)} rows agree' if not bad else sorted(set(bad))[0], witness="glob('x', exclude='*.{log,md}', limit=0) must not raise: limit 0 disables the check for exclusions too")
 
 
 LOOPS = [(WP, 'translate', 'limit', 'current_limit'), (WP, 'compile_pattern', 'limit', 'current_limit'),
